@@ -751,7 +751,11 @@ func (env *Env) call(x *ast.CallExpr) (Val, error) {
 			return Val{}, err
 		}
 		if fname == "forall" {
-			return boolVal(fmt.Sprintf("(forall ((%s Int)) %s)", bv, sImp(rng, body))), nil
+			var parts []string
+			for _, rb := range shiftIndexVar(bv, rng, body) {
+				parts = append(parts, fmt.Sprintf("(forall ((%s Int)) %s)", bv, sImp(rb[0], rb[1])))
+			}
+			return boolVal(sAnd(parts...)), nil
 		}
 		return boolVal(fmt.Sprintf("(exists ((%s Int)) %s)", bv, sAnd(rng, body))), nil
 	case "forallref":
@@ -848,6 +852,19 @@ func (env *Env) call(x *ast.CallExpr) (Val, error) {
 			return Val{}, err
 		}
 		return boolVal(sAnd(sApp(">=", a.T, vc.alloc(env.old)), sApp("<", a.T, vc.alloc(env.heap)))), nil
+	case "allocated":
+		// allocated(x): the pointer (or the backing array of the slice) x is below the allocation frontier of the current state
+		a, err := arg(0)
+		if err != nil {
+			return Val{}, err
+		}
+		t := a.T
+		if a.Typ != nil {
+			if _, isSlice := a.Typ.Underlying().(*types.Slice); isSlice {
+				t = sApp("s-arr", a.T)
+			}
+		}
+		return boolVal(sAnd(sApp("<=", "0", t), sApp("<", t, vc.alloc(env.heap)))), nil
 	case "ref":
 		a, err := arg(0)
 		if err != nil {
@@ -1088,5 +1105,98 @@ func (vc *VC) withPatterns(bv, body string) string {
 		b.WriteString(" :pattern (" + p + ")")
 	}
 	b.WriteString(")")
+	return b.String()
+}
+
+// shiftIndexVar rewrites  forall i. rng(i) => body(i)  into the equivalent  forall i. rng(i - X) => body(i - X)
+// when every slice access of the body indexes with (+ X i) for one offset term X: the array reads then
+// mention the bound variable alone, which gives the solvers' E-matching a usable trigger.
+func shiftIndexVar(bv, rng, body string) [][2]string {
+	var offs []string
+	seen := map[string]bool{}
+	pre := "(+ "
+	for i := 0; i+len(pre) < len(body); i++ {
+		if !strings.HasPrefix(body[i:], pre) {
+			continue
+		}
+		// first argument
+		j := i + len(pre)
+		a1, e1 := sexprAt(body, j)
+		if e1 < 0 || e1 >= len(body) || body[e1] != ' ' {
+			continue
+		}
+		a2, e2 := sexprAt(body, e1+1)
+		if e2 < 0 || e2 >= len(body) || body[e2] != ')' {
+			continue
+		}
+		if a2 == bv && !strings.Contains(a1, bv) && !seen[a1] {
+			seen[a1] = true
+			offs = append(offs, a1)
+		}
+	}
+	if len(offs) == 0 || len(offs) > 2 {
+		return [][2]string{{rng, body}}
+	}
+	// one equivalent copy per offset term (at most two): each copy offers the trigger of one of the slices
+	var out [][2]string
+	for _, x := range offs {
+		if x == "0" {
+			out = append(out, [2]string{rng, body})
+			continue
+		}
+		mark := "\x00SHIFTED\x00"
+		nb := strings.ReplaceAll(body, "(+ "+x+" "+bv+")", mark)
+		back := "(- " + bv + " " + x + ")"
+		nb = replaceSym(nb, bv, back)
+		nb = strings.ReplaceAll(nb, mark, bv)
+		nr := replaceSym(rng, bv, back)
+		out = append(out, [2]string{nr, nb})
+	}
+	return out
+}
+
+// sexprAt returns the s-expression (atom or balanced list) starting at position i and the index just after it
+func sexprAt(s string, i int) (string, int) {
+	if i >= len(s) {
+		return "", -1
+	}
+	if s[i] != '(' {
+		j := i
+		for j < len(s) && s[j] != ' ' && s[j] != ')' && s[j] != '(' {
+			j++
+		}
+		return s[i:j], j
+	}
+	d := 0
+	for j := i; j < len(s); j++ {
+		switch s[j] {
+		case '(':
+			d++
+		case ')':
+			d--
+			if d == 0 {
+				return s[i : j+1], j + 1
+			}
+		}
+	}
+	return "", -1
+}
+
+// replaceSym replaces whole-symbol occurrences of sym
+func replaceSym(s, sym, with string) string {
+	var b strings.Builder
+	for i := 0; i < len(s); {
+		if strings.HasPrefix(s[i:], sym) {
+			before := i == 0 || s[i-1] == ' ' || s[i-1] == '('
+			after := i+len(sym) == len(s) || s[i+len(sym)] == ' ' || s[i+len(sym)] == ')'
+			if before && after {
+				b.WriteString(with)
+				i += len(sym)
+				continue
+			}
+		}
+		b.WriteByte(s[i])
+		i++
+	}
 	return b.String()
 }
